@@ -60,7 +60,7 @@ func detailGen(t *rapid.T) prog.DetailSpec {
 	return prog.DetailSpec{
 		Kind: rapid.SampledFrom([]string{"ping", "duration", "int64", "string", "struct", "pingres"}).Draw(t, "dkind"),
 		N:    rapid.Int64Range(-1000, 1<<40).Draw(t, "dn"),
-		S:    rapid.SampledFrom([]string{"", "detail", "ünï", "with \"quotes\"", "a\nb"}).Draw(t, "ds"),
+		S:    rapid.SampledFrom([]string{"", "detail", "ünï", "with \"quotes\"", "a\nb", strings.Repeat("long detail ", 25)}).Draw(t, "ds"),
 	}
 }
 
@@ -70,7 +70,7 @@ func metaGen(t *rapid.T, label string) []prog.KV {
 	for i := 0; i < n; i++ {
 		k := "X-Err-" + rapid.SampledFrom([]string{"A", "B", "Trace-Id", "Longer-Key-Name"}).Draw(t, label+"K")
 		if rapid.IntRange(0, 3).Draw(t, label+"bin") == 0 {
-			raw := rapid.SliceOfN(rapid.Byte(), 0, 12).Draw(t, label+"raw")
+			raw := rapid.SliceOfN(rapid.Byte(), 0, rapid.SampledFrom([]int{12, 12, 12, 150}).Draw(t, label+"rawMax")).Draw(t, label+"raw")
 			kvs = append(kvs, prog.KV{K: k + "-Bin", V: connect.EncodeBinaryHeader(raw)})
 			continue
 		}
@@ -128,6 +128,23 @@ func gen(transports []string) func(t *rapid.T) Case {
 			}
 		}
 		c.ByInterceptor = rapid.IntRange(0, 3).Draw(t, "byInterceptor") == 0
+		if c.Transport == "h1" {
+			// stay clear of net/http's 4 KiB HTTP/1 trailer limit (see above)
+			for i := range c.Err.Details {
+				if len(c.Err.Details[i].S) > 20 {
+					c.Err.Details[i].S = "detail"
+				}
+			}
+			short := func(l []prog.KV) {
+				for i := range l {
+					if len(l[i].V) > 24 {
+						l[i].V = l[i].V[:24]
+					}
+				}
+			}
+			short(c.Err.Meta)
+			short(c.Trailer)
+		}
 		return c
 	}
 }
